@@ -168,6 +168,20 @@ func (e *SpecEnv) eval(x ast.Expr) T {
 		return e.index(base, idx)
 	case *ast.SliceExpr:
 		base := e.eval(x.X)
+		if base.Sort == "Str" {
+			lo, hi := "0", app("str_len", base.S)
+			if x.Low != nil {
+				lo = e.eval(x.Low).S
+			}
+			if x.High != nil {
+				hi = e.eval(x.High).S
+			}
+			if g.strTheory {
+				return mk(app("str.substr", base.S, lo, sSub(hi, lo)), "Str", base.GT)
+			}
+			g.declFun("str_sub", []Sort{"Str", "Int", "Int"}, "Str")
+			return mk(app("str_sub", base.S, lo, hi), "Str", base.GT)
+		}
 		if base.Sort != "Slice" {
 			specFail("slice expression on non-slice %s", exprString(x.X))
 		}
@@ -1209,12 +1223,25 @@ func (e *SpecEnv) callGoFunc(fo *types.Func, recv *T, args []ast.Expr) T {
 		as = append(as, e.eval(a))
 	}
 	key := funcKey(fo)
+	if g.strTheory && fo.Pkg() != nil {
+		if r, ok := g.stringExtern(fo.Pkg().Path()+"."+fo.Name(), as); ok {
+			return r
+		}
+	}
 	if g.cs.Pure[key] {
 		return g.pureApp(fo, as)
 	}
 	if e.fr != nil {
 		if sf := g.prog.FuncValue(fo); sf != nil && sf.Blocks != nil {
-			if fc := g.cs.Funcs[contractKeyOf(sf)]; fc != nil && fc.Inline {
+			fc := g.cs.Funcs[contractKeyOf(sf)]
+			for _, a := range as {
+				for _, bv := range e.bound {
+					if strings.Contains(a.S, bv) {
+						specFail("Go function %s cannot be executed symbolically under a quantifier: use a spec function tied to it by a contract", key)
+					}
+				}
+			}
+			if (fc != nil && fc.Inline) || (inRepo(sf) && loopFree(sf)) {
 				res, ok := e.fr.specInline(sf, as, e.cur)
 				if ok {
 					return res
@@ -1252,5 +1279,8 @@ func (g *Gen) pureApp(fo *types.Func, as []T) T {
 	name := quote("m:" + funcKey(fo))
 	g.declFun(name, sorts, rs)
 	g.assumeNote("pure: %s is modelled as a deterministic, side-effect free function of its arguments", funcKey(fo))
+	if k := funcKey(fo); k == "errors.New" || k == "fmt.Errorf" {
+		g.assert(sNot(sEq(app(name, strs...), "0")))
+	}
 	return mk(app(name, strs...), rs, rt)
 }
